@@ -228,6 +228,21 @@ def run(ctx, rep):
                                     f"({ {k_: (f1[k_], f2[k_]) for k_ in diff[:2]} })", "C18:differs-from-fresh", case)
                         ok = False
                         break
+                # the same on the OBJECT itself (a copy starts with fresh derived state; a reader's private cache lives on the object)
+                if rng.random() < 0.35:
+                    with warnings.catch_warnings():
+                        warnings.simplefilter("ignore")
+                        own = {f: ag.get_formatted_string(f) for f in ("console", "sympy", "stack")}
+                    ops.append("o")
+                    states.append(None)
+                    rep.count("strings_read_on_object")
+                    want_s = {f: o2["str_" + f] for f in own}
+                    if own != want_s:
+                        bad_f = [f for f in own if own[f] != want_s[f]][0]
+                        rep.violate(f"the object prints {own[bad_f]!r} in {bad_f} format, a freshly constructed equation with the same stack and "
+                                    f"constants prints {want_s[bad_f]!r}", "C18:differs-from-fresh", case)
+                        ok = False
+                        break
                 # copy: equal and independent
                 if rng.random() < 0.3:
                     cp = ag.copy()
